@@ -38,6 +38,26 @@ ASSUMPTIONS = [
 
 def run(chk):
     repo, folder = ctx(chk)
+    server_frames(chk)
+    _conservation(chk, repo, folder)
+    _mux_echo(chk, repo, folder)
+    _toggle(chk, repo, folder)
+    _dispatch(chk, repo, folder)
+    _one_response(chk, repo, folder)
+    _totality(chk, repo, folder)
+    _precedence(chk, repo, folder)
+    from . import shared
+    shared.store_exact(chk, "R11")
+    shared.server_reset(chk, "R12")
+    # R13: every response echoes the addressed multiplexer -- including the abort responses (clause shared with C06.R3)
+    from . import c06
+    c06.abort_frame_and_multiplexer(chk, "R13")
+
+
+def server_frames(chk):
+    """The server's five emission sites against the CiA 301 frame layouts (R1 length, R2 command byte, R3 n-field operand range);
+    shared with C03, whose values travel in these frames."""
+    repo, folder = ctx(chk)
     mod = repo.mod(SV, "C02")
     sc = Scope(mod)
 
@@ -118,19 +138,6 @@ def run(chk):
         chk.check(not tail, "R2", f"{site0} | command final after the branch", f.loc(), "the command byte is modified after the expedited/segmented decision")
     chk.floor("R1", n_sites, 5, "server emission sites")
 
-    _conservation(chk, repo, folder)
-    _mux_echo(chk, repo, folder)
-    _toggle(chk, repo, folder)
-    _dispatch(chk, repo, folder)
-    _one_response(chk, repo, folder)
-    _totality(chk, repo, folder)
-    _precedence(chk, repo, folder)
-    from . import shared
-    shared.store_exact(chk, "R11")
-    shared.server_reset(chk, "R12")
-    # R13: every response echoes the addressed multiplexer -- including the abort responses (clause shared with C06.R3)
-    from . import c06
-    c06.abort_frame_and_multiplexer(chk, "R13")
 
 
 # ---------------------------------------------------------------------------------------------------- R4
